@@ -876,6 +876,9 @@ fn likely_chem_subscript(subscript: Element) -> isize {
     } else if subscript_name == "mrow" {
         // debug!("likely_chem_subscript:\n{}", mml_to_string(&subscript));
         let children = subscript.children();
+        if children.is_empty() {
+            return NOT_CHEMISTRY;       // an empty mrow is kept if it has an intent
+        }
         if children.len() == 3 && IsBracketed::is_bracketed(subscript, "(", ")", false, true) {
             return likely_chem_subscript(as_element(children[1]));
         }
